@@ -296,6 +296,24 @@ fn oracle_card(ctx: &mut Ctx, rng: &mut Rng, k: usize, d: u8, h: u8, w: u8, max_
 
 pub fn run(ctx: &mut Ctx) {
     let quick = ctx.quick();
+    // the module's own generators (also judged by C15): with the random source replaced by a known tape they hand
+    // out exactly its next bytes - the value this property's functions are then fed with
+    {
+        use wow_srp::verif_hooks::rand as vr;
+        let mut r2 = ctx.rng("generators");
+        for k in 0..(if ctx.quick() { 200 } else { 5000 }) {
+            let tape = if k == 0 { vec![0xffu8; 32] } else if k == 1 { vec![0u8; 32] } else { r2.bytes(32) };
+            ctx.oracle_runs += 1;
+            vr::take_log(); vr::install_tape(&tape);
+            let r = catch(wow_srp::matrix_card::get_matrix_card_seed);
+            let left = vr::remove_tape().len(); vr::take_log();
+            match r {
+                Some(seed) if seed.to_le_bytes() == tape[0..8] && left == 24 => {}
+                other => ctx.fail("generators", format!("{{\"what\":\"get_matrix_card_seed does not hand out the next 8 bytes of the random source\",\"tape\":\"{}\",\"got\":{}}}", hex(&tape), jstr(&format!("{:?}", other)))),
+            }
+        }
+    }
+
     // the public size function: digit_count * height * width for every triple of u8 values (all 2^24 in thorough),
     // and from_data accepts exactly that many bytes
     {
